@@ -242,4 +242,5 @@ def main():
                           "parameters of the theorem)", "the generator is the installed Lark (1.3.1); the shipped module embeds Lark 1.1.2's runtime",
                           "terminal width upper bounds are capped at 2^31 before comparison (4294967295 vs sre MAXREPEAT differ between Python versions, with no effect on matching)"])
 
-guarded(main, "C16")
+if __name__ == "__main__":
+    guarded(main, "C16")
